@@ -6,10 +6,10 @@ The check never writes this file."""
 import sys
 from vpm import c18, shapes as S
 
-print("# F-C18-2: shapes of the enumerated domain (all shapes <= 8 nodes, all full shapes <= 17 nodes) on which")
+print("# F-C18-2: shapes of the enumerated domain (all shapes <= 9 nodes, all full shapes <= 19 nodes) on which")
 print("# layout() violates (b) child-side, (d) level spacing or (g) mirror symmetry. Format: <shape> <clauses>")
 n = tot = 0
-for sh in c18.enumerated_shapes():
+for sh in c18.enumerated_shapes(True):
     t = S.to_text(sh)
     tot += 1
     bad = set()
